@@ -898,6 +898,17 @@ def tolerance_probes(R, rng, ptype, phase):
             if aname == 'default':
                 rec.count(f'units:{phase}:default-atol-judged:{U.label}')
                 rec.count(f'units:{phase}:default-atol-judged:{ptype}')
+        # an explicit tolerance of zero (or far below the offset) is a tolerance, not "use the default": the position
+        # 0.005 A off the site is then not an atom (refused; for an interstitial a free site)
+        for aname, a in (('zero', 0.0), ('tiny', 1e-9 * DOC_ATOL)):
+            tz = f'units-{phase}:{aname}-atol-0.005A-{form}'
+            sin = dict(pos=pos_arg(R, p_in, scale, 'array', None))
+            if ptype == 'i':
+                R.accept(dict(type='i', site=None, pos=p_in, kw={}), tz, sin, scale=scale, atol_arg=a,
+                         relmax=relmax_of(R, p_in), posform=True)
+            else:
+                R.refuse(ptype, tz, sin, op=op, scale=scale, db_arg=dbarg(scale), atol_arg=a, posform=True)
+            rec.count(f'units:{aname}-atol-judged')
         if got.get('default') is not None and got.get('explicit') is not None:
             same_result(rec, got['default'], got['explicit'], ptype, f'units-{phase}:{form}', 0.0, clause=C_UNITS,
                         key=f'{ptype}:units-{phase}:default-atol-differs-from-explicit-0.01A')
@@ -1156,6 +1167,8 @@ def run(ctx):
     for pt in PTYPES:
         rec.floor(f'units:after-switch:default-atol-judged:{pt}', 100)
     rec.floor('units:default-vs-explicit-compared', 800)
+    rec.floor('units:zero-atol-judged', 800)
+    rec.floor('units:tiny-atol-judged', 800)
     rec.floor('units:large-explicit-atol-before-default', 800)
     rec.floor('units:results-compared-across-configurations', 1500)
     rec.floor('units:carried-system-judged', 100)
